@@ -328,3 +328,77 @@ func allASCIIText(list []Pkt) bool {
 	}
 	return true
 }
+
+// Order across consecutive data requests (E1): the client posts [m1 m2], waits for the
+// acknowledgement, then posts [m3]; every interleaving of the handlers and whatever goroutines
+// the server uses to process a payload. Also on websocket: three frames back to back.
+func init() {
+	register("C02", "order-across-requests", false, func(c *Ctx) {
+		n := 0
+		for _, kind := range []string{"polling", "polling3", "websocket", "webtransport"} {
+			kind := kind
+			n++
+			id := "order across requests on " + kind
+			c.ExploreDev(id, Pick(c, 1, 2), Pick(c, 3, 5), func(x *vsched.Exec) {
+				w := NewWorld(x, sessOpts())
+				s := openSession(x, w, kind, false)
+				if s == nil {
+					return
+				}
+				var acks []*Resp
+				vsched.GoNamed("client", func() {
+					w.BeginAction()
+					switch {
+					case s.pc != nil:
+						r1 := s.pc.Post([]Pkt{Msg("m1"), Msg("m2")})
+						acks = append(acks, r1)
+						r1.Wait()
+						r2 := s.pc.Post([]Pkt{Msg("m3")})
+						acks = append(acks, r2)
+						r2.Wait()
+					case s.ws != nil:
+						s.ws.SendPkt(Msg("m1"))
+						s.ws.SendPkt(Msg("m2"))
+						s.ws.SendPkt(Msg("m3"))
+					case s.wc != nil:
+						s.wc.SendPkt(Msg("m1"))
+						s.wc.SendPkt(Msg("m2"))
+						s.wc.SendPkt(Msg("m3"))
+					}
+				})
+				x.Run(x.Now() + time.Second)
+				var got []string
+				for _, m := range s.rec.Messages() {
+					got = append(got, string(m.Data))
+				}
+				if strings.Join(got, ",") != "m1,m2,m3" {
+					x.Fail("inbound-order[%s]: submitted m1 m2 | m3 (second request after the first was acknowledged), delivered %v", kind, got)
+				}
+				for i, r := range acks {
+					// the acknowledgement comes after the payload's packets have been processed
+					if r.wrote && r.Code == 200 {
+						want := []string{"m1", "m2"}
+						if i == 1 {
+							want = []string{"m1", "m2", "m3"}
+						}
+						seen := 0
+						for _, e := range s.rec.Events {
+							if e.Name == "message" && e.Seq < r.WroteSeq {
+								seen++
+							}
+						}
+						if seen < len(want) {
+							x.Fail("ack-before-processing[%s]: data request #%d acknowledged after %d of %d message events", kind, i+1, seen, len(want))
+						}
+					}
+				}
+				for _, t := range x.Panics() {
+					x.Fail("panic[%s]: %v", kind, t.Panic)
+				}
+				x.Outcome = strings.Join(got, ",")
+			})
+		}
+		c.Res.Distinct = int64(n)
+		c.Note("two consecutive data requests ([m1 m2], then [m3] after the first acknowledgement) / three frames back to back, every interleaving up to the bound: messages delivered in submission order, acknowledgement only after the payload's message events")
+	})
+}
